@@ -313,6 +313,10 @@ func firstLine(s string) string {
 
 func runHarness(prog *ssa.Program, pkgs interface{}, spec sym.HarnessSpec, tier string, verbose bool) (res *harnessResult) {
 	res = &harnessResult{Spec: spec}
+	// machine-wide bound on concurrently running harnesses (several checks may be
+	// started at once); the harness's time budget starts when it gets its slot
+	release := acquireSlot()
+	defer release()
 	defer func() {
 		if r := recover(); r != nil {
 			res.Err = fmt.Sprintf("engine fault: %v", r)
